@@ -17,7 +17,7 @@ RULE = (
     "Metamorphic pairs: a generated base project (whole-slot and sub-slot efforts, nesting, DAGs with gaps, pins, "
     "leaves, calendars, limits on resources / groups / tasks, teams, forward and backward projects; all priorities "
     ">= 2; declared duration long enough that the horizon is not extended) and the same project plus one intruder "
-    "task of priority 1 on which nothing depends (any effort, any resource or team of the project, optional pin, "
+    "task of priority 1 (or 0) on which nothing depends (any effort, any resource or team of the project, optional pin, "
     "optional dependencies on base tasks, ASAP or anchored ALAP; inserted at any declaration position, top level or "
     "inside a container that nothing depends on). Oracle: scheduled flag, start and end of every base leaf task are "
     "identical in both runs, and the per-task usage ledger of base tasks is identical; pairs whose effective project "
@@ -71,7 +71,7 @@ def pairs(draw, pf):
             t.priority = 2
     res_min = spec.res_min
     leaf_rids = [rid for rid, (r, _a) in spec.res_map().items() if not r.children]
-    x = Task("zz", priority=1)
+    x = Task("zz", priority=draw(st.sampled_from([1, 1, 0])))  # 0 is accepted by the parser and is the lowest value
     members = [draw(st.sampled_from(leaf_rids))]
     if len(leaf_rids) > 1 and draw(st.integers(0, 3)) == 0:
         other = draw(st.sampled_from([r for r in leaf_rids if r != members[0]]))
